@@ -53,9 +53,17 @@ type editCase struct {
 	wrap     bool
 	mask     byte
 	n        int
+	ins      insertion // op insert: the frame(s) the man in the middle adds in front of frame (dir, idx)
 }
 
 func (c editCase) key() string {
+	if c.op == "insert" {
+		return c.baseKey() + "|" + c.ins.key()
+	}
+	return c.baseKey()
+}
+
+func (c editCase) baseKey() string {
 	return fmt.Sprintf("%s|%s>%s|%s>%s|%s|%v|%s|%s[%d]|%d|%02x|%d", c.proto, c.ti, c.tr, c.tc, c.td, c.respKind, c.prologue, c.op, c.dir, c.idx, c.pos, c.mask, c.n)
 }
 
@@ -160,6 +168,9 @@ func classify(c editCase, ap wire.Applied) string {
 	if !ap.Hit || !ap.Changed {
 		return "baseline"
 	}
+	if c.op == "insert" {
+		return classifyInsert(c, ap)
+	}
 	last := c.idx == hsFrames(c.proto)[c.dir]-1
 	if c.proto == pTLS {
 		typ := ap.Orig[0]
@@ -237,6 +248,9 @@ func outcomeLabel(s *sess) string {
 }
 
 func frameLabel(c editCase) string {
+	if c.idx >= hsFrames(c.proto)[c.dir] {
+		return fmt.Sprintf("after-last-handshake-frame:%s", c.dir)
+	}
 	if c.proto == pNoise {
 		m := 1
 		if c.dir == wire.BtoA {
@@ -306,12 +320,18 @@ func runEdit(t *testing.T, rt *rapid.T, c editCase) (nontrivial bool, labels []s
 		default:
 			a, b := c.sides(ia, ib)
 			ed, ap := wire.Single(framing(c.proto), c.edit(nil))
+			if c.op == "insert" {
+				ed, ap = insertEditor(framing(c.proto), c)
+			}
 			s := runThrough(c.proto, a, b, ed, nonce)
 			s.ap = ap()
 			results, idents = []*sess{s}, [][2]*keys.Identity{{ia, ib}}
 		}
 	})
 	labels = []string{c.proto, "op:" + c.op, frameLabel(c), "keys:" + c.ti + ">" + c.tr}
+	if c.op == "insert" {
+		labels = append(labels, c.ins.labels(c)...)
+	}
 	if c.op == "replay-all" {
 		checkIdentity(f, c.key()+" (replayed flight)", c.proto, targetSide, target, nil, true)
 		labels = append(labels, "class:strict", "target-err:"+errClass(target.hsErr))
@@ -359,7 +379,7 @@ func replayAgainst(proto string, target *side, frames [][]byte, nonce []byte) *o
 
 // ---------------------------------------------------------------------------
 
-var sampledOps = []string{"flip", "flip", "flip", "trunc-fix", "trunc-nofix", "ext-fix", "ext-nofix", "drop", "dup", "swap", "replay", "replay-all"}
+var sampledOps = []string{"flip", "flip", "flip", "trunc-fix", "trunc-nofix", "ext-fix", "ext-nofix", "drop", "dup", "swap", "replay", "replay-all", "insert", "insert"}
 
 func drawEdit(rt *rapid.T, proto string) editCase {
 	c := editCase{
@@ -396,6 +416,12 @@ func drawEdit(rt *rapid.T, proto string) editCase {
 	case "swap":
 		c.tc = rapid.SampledFrom(keys.Types).Draw(rt, "tc")
 		c.td = rapid.SampledFrom(keys.Types).Draw(rt, "td")
+	case "insert":
+		c.ins = drawInsertion(rt, proto)
+		// one case in eight puts the frame(s) behind the last handshake frame of that direction
+		if rapid.IntRange(0, 7).Draw(rt, "after-last") == 0 {
+			c.idx = n[c.dir]
+		}
 	}
 	return c
 }
